@@ -272,7 +272,9 @@ func runStep(self, root, layout string, pc pipeCase, st pipeStep, scratch string
 			plan[pp+"|"+st.Fault.Gen+"|"+st.Fault.At] = st.Fault.Kind
 		}
 	}
-	spec := pipe.RunSpec{Dir: root, Layout: layout, All: st.All, Force: st.Force, Entry: st.Entry, From: st.From, Plan: plan,
+	// the caller's Globals are never empty; every package's doc carries a tag of its own (+only:<pkg>=1): what a type's
+	// output shows of the effective tags must be its package's, whatever was generated before it in the same process
+	spec := pipe.RunSpec{Dir: root, Layout: layout, All: st.All, Force: st.Force, Entry: st.Entry, From: st.From, Plan: plan, Globals: map[string][]string{"verif:global": {"1"}},
 		Log: filepath.Join(scratch, fmt.Sprintf("calls-%d.ndjson", n)), Result: filepath.Join(scratch, fmt.Sprintf("result-%d.json", n))}
 	for _, g := range st.Gens {
 		spec.Gens = append(spec.Gens, pipe.GenSpec{Name: g, Newer: pc.Newer, Stateful: pc.Stateful})
